@@ -479,3 +479,25 @@ Proof.
   induction ops as [|o ops IH]; intros s; [reflexivity|].
   destruct o as [f|]; cbn [fold_left pstep_r fills_of_ops flat_map app]; apply IH.
 Qed.
+
+(** a fill for another instrument is rejected by an open position: nothing changes *)
+Lemma rejected_fill_noop p xs f : f_inst f <> p_inst p ->
+  pm_update (Some p) f = (Some p, None) /\ pstep (Some p, xs) f = (Some p, xs).
+Proof.
+  intros Hne.
+  assert (E : pm_update (Some p) f = (Some p, None)).
+  { unfold pm_update, pos_update, arm_of.
+    destruct (N.eqb (p_inst p) (f_inst f)) eqn:En; [apply N.eqb_eq in En; congruence|reflexivity]. }
+  split; [exact E|]. unfold pstep. cbn [fst snd]. rewrite E. cbn [fst snd olist]. rewrite app_nil_r. reflexivity.
+Qed.
+
+Lemma rejected_fill_noop_history i fs g rest :
+  Forall (valid_fill i) fs -> fst (prun fs) <> None -> f_inst g <> i ->
+  prun (fs ++ g :: rest) = prun (fs ++ rest).
+Proof.
+  intros Hv Hopen Hne. unfold prun. rewrite !fold_left_app. cbn [fold_left]. fold (prun fs).
+  destruct (run_invariant i fs Hv) as [G _ _ _ _].
+  destruct (prun fs) as [[p|] xs] eqn:E; cbn [fst] in *; [|congruence].
+  destruct G as [Hi _]. rewrite (proj2 (rejected_fill_noop p xs g (eq_ind_r (fun j => f_inst g <> j) Hne Hi))).
+  reflexivity.
+Qed.
